@@ -588,6 +588,47 @@ fn history_space() -> Space {
     )
 }
 
+/// Space `evil-json`: the extra JSON file (module signature information) lists one module under several
+/// certificates; which one is reported must not vary between runs (labelled sampling of hash seeds: 32 runs).
+fn evil_space() -> Space {
+    Space::new(
+        "evil-json-repeated-runs-sampled",
+        2,
+        move |i, l| {
+            use vh::procgen::{self, CpuK, Model, ThreadM};
+            let mut m = Model::new(if i == 0 { CpuK::Amd64 } else { CpuK::X86 }, 2);
+            m.threads = vec![ThreadM { tid: 1, ctx_ok: true, ip: procgen::APP_BASE + 0x40, sp: procgen::STACK_BASE + 8 }];
+            m.modules = vec![procgen::app_module()];
+            let bytes = procgen::build(&m);
+            let dump = Minidump::read(&bytes[..]).expect("dump");
+            let dir = tempfile::tempdir().expect("tempdir");
+            let path = dir.path().join("extra.json");
+            std::fs::write(&path, br#"{"ModuleSignatureInfo": {"Cert A": ["app.exe", "x.dll"], "Cert B": ["app.exe"], "Cert C": ["y.dll", "app.exe"], "Cert D": ["app.exe"]}, "CPUMicrocodeVersion": "0x1"}"#).expect("write");
+            let mut first: Option<Rendered> = None;
+            for run in 0..32 {
+                let p = Symbolizer::new(DelaySup { syms: Arc::new(HashMap::new()), delays: vec![0], calls: Mutex::new(0) });
+                let mut o = minidump_processor::ProcessorOptions::unstable_all();
+                o.evil_json = Some(&path);
+                let st = block_on(minidump_processor::process_minidump_with_options(&dump, &p, o)).expect("process");
+                l.eval();
+                let got = render(&st);
+                match &first {
+                    None => first = Some(got),
+                    Some(f) if *f != got => {
+                        let (sig, what) = describe_difference(f, &got);
+                        l.violation(format!("c13:nondeterministic-output:extra-json:{sig}"), format!("run {run} with the same dump and the same extra JSON file differs from run 0: {what}"), json!({"extra_json": "one module listed under four certificates"}));
+                        break;
+                    }
+                    _ => {}
+                }
+            }
+            l.distinct(&("evil", i));
+            l.outcome("evil-json repeated runs");
+        },
+        |i| json!({"cpu": (if i == 0 { "amd64" } else { "x86" }), "extra_json": "one module listed under four certificates", "kind": "labelled sampling of hash seeds"}),
+    )
+}
+
 fn main() {
     run_check("C13", |ctx| {
         let thorough = ctx.tier == Tier::Thorough;
@@ -645,6 +686,7 @@ fn main() {
         let reps = if thorough { 128 } else { 32 };
         def.spaces.push(Space::new("repeated-runs-sampled", ins.len() as u64, move |i, l| repeated_runs(&i5[i as usize], reps, l), move |i| json!({"input": i6[i as usize].name, "repetitions": reps, "kind": "labelled sampling of hash seeds"})).chunked(1).wall(600_000));
         def.spaces.push(history_space());
+        def.spaces.push(evil_space());
         def.finish = Some(Box::new(|total, extra| {
             let g = |k: &str| total.counters.get(k).copied().unwrap_or(0);
             extra.insert("states".into(), json!(g("states").max(1)));
